@@ -197,6 +197,11 @@ func (m *Mailbox) encodeEnvelopWithLength(envelop vivid.Envelop) ([]byte, error)
 	if err != nil {
 		return nil, err
 	}
+	// 接收端会拒绝超过上限的长度，且无法跳过其后的消息体：该连接上此后的所有帧都会错位。
+	// 因此超限的消息不得写出，按编码失败处理（由调用方转为死信）。
+	if len(data) > maxFrameLength {
+		return nil, vivid.ErrorInvalidMessageLength.WithMessage(fmt.Sprintf("length: %d", len(data)))
+	}
 	lengthBuf := make([]byte, 4)
 	binary.BigEndian.PutUint32(lengthBuf, uint32(len(data)))
 	return append(lengthBuf, data...), nil
